@@ -755,11 +755,8 @@ func c11Rest(c *Ctx) {
 			EachInstr(g, func(in ssa.Instruction) {
 				if IsCall(in, Spec{"./core", "Gun", "Shoot"}) {
 					nShoot++
-					root := g
-					for root.Parent() != nil {
-						root = root.Parent()
-					}
-					if root != run || !IsFieldLoad(CC(in).Value, "instance", "gun") {
+					// inside instance.Run: in it, in one of its closures, or in a helper only it calls
+					if !P.WithinOnly(g, func(f *ssa.Function) bool { return f == run }, 4) || !IsFieldLoad(CC(in).Value, "instance", "gun") {
 						okShoot = false
 					}
 				}
@@ -775,38 +772,15 @@ func c11Rest(c *Ctx) {
 			EachInstr(g, func(in ssa.Instruction) {
 				if cc := CC(in); cc != nil && cc.StaticCallee() == run {
 					nRun++
-					// g (or an enclosing closure) is started by a go statement
-					started := false
-					for f := g; f != nil; f = f.Parent() {
-						if f.Parent() == nil {
-							// plain function: all of its static call sites are inside go closures
-							sites := P.StaticCallSites(f)
-							all := len(sites) > 0
-							for _, s := range sites {
-								if !inGoClosure(s.Parent()) {
-									all = false
-								}
-							}
-							if all && f != g {
-								started = true
-							}
-							if all && f == g && g.Parent() == nil {
-								started = true
-							}
-							break
-						}
-						if inGoClosure(f) {
-							started = true
-							break
-						}
-					}
+					// g (an enclosing closure, or every caller of the helper it is in) is started by a go statement
+					started := P.WithinOnly(g, func(f *ssa.Function) bool { return inGoClosure(f) || isGoTarget(P, f) }, 4)
 					if !started {
 						okRun = false
 					}
 				}
 			})
 		}
-		c.Check(nRun >= 2 && okRun, "O11.2", "core/engine:each-instance-run-by-its-own-goroutine", run.Pos(), fmt.Sprintf("%d instance.Run call site(s), each reached only from a go statement: %v", nRun, okRun))
+		c.Check(nRun >= 1 && okRun, "O11.2", "core/engine:each-instance-run-by-its-own-goroutine", run.Pos(), fmt.Sprintf("%d instance.Run call site(s), each reached only from a go statement: %v", nRun, okRun))
 	}
 	// ---- O11.3 clone discipline
 	for _, t := range []struct{ rel, idField string }{{"components/guns/http_scenario", "ID"}, {"components/guns/grpc/scenario", "id"}} {
@@ -1050,4 +1024,22 @@ func isRefType(t types.Type) bool {
 		}
 	}
 	return false
+}
+
+
+// isGoTarget: fn is a plain function / method that is only ever started with `go fn(...)`.
+func isGoTarget(P *Prog, fn *ssa.Function) bool {
+	if fn.Parent() != nil {
+		return false
+	}
+	sites := P.StaticCallSites(fn)
+	if len(sites) == 0 {
+		return false
+	}
+	for _, s := range sites {
+		if _, ok := s.(*ssa.Go); !ok {
+			return false
+		}
+	}
+	return true
 }
